@@ -27,7 +27,9 @@ var parserIntervals = map[string]bool{"daily": true, "weekly": true, "monthly": 
 
 // input: the encoding of one transaction directive (journal.go Dir.Enc, kind T)
 // observed: transactions separated by ';', each
-//   date|desc-hex|targets|acc other com qty,acc other com qty
+//
+//	date|desc-hex|targets|acc other com qty,acc other com qty
+//
 // targets: "-" (nil) or "=" followed by the comma-separated commodities; "ERR" when the parser or
 // transaction.Create return an error, "PANIC" when they panic.
 func obsC10Create(in string) (res string) {
